@@ -541,20 +541,23 @@ class Prop(Check):
         "RrelSyntax.C12_roundtrip",
         "RrelSyntax.C12_eval",
         "RrelSyntax.C12_roundtrip_seq",
+        "RrelSyntax.C12_parse_range",
+        "RrelSyntax.C12_parsed_partial",
+        "RrelSyntax.C12_wf_in_range",
         "RrelSyntax.C12_trailing_backslash_false",
         "RrelSyntax.C12_pinned_flags_false",
         "RrelSyntax.C12_pinned_quote_false",
     ]
     DRIVER = "Drivers/RrelSyntax.lean"
-    QUICK_CASES = 1400
-    THOROUGH_CASES = 40000
+    QUICK_CASES = 800
+    THOROUGH_CASES = 12000
     ENUM_QUICK = 3
     ENUM_THOROUGH = 4
     FLAGS_ALL_QUICK = 2
     FLAGS_ALL_THOROUGH = 3
     RULE = ("complete: every tree with <= 3 (quick) / <= 4 (thorough) elements over {parent(T), a, ~b, 'x'~a, leading . and .., "
-            "brackets, star}; flags '', m, p, mp on each tree with <= 2 (quick) / <= 3 (thorough) elements, in rotation on the "
-            "larger ones; random: trees of depth <= 5 over 16 names (ASCII, Unicode, 'parent…'), "
+            "brackets, star} (quick: the 3-element trees in three slices, slice = seed mod 3); flags '', m, p, mp on each tree "
+            "with <= 2 (quick) / <= 3 (thorough) elements, in rotation on the larger ones; random: trees of depth <= 5 over 16 names (ASCII, Unicode, 'parent…'), "
             "23 + random fixed names with quotes / backslashes / whitespace, 9 flag strings; a stream of ill-formed trees; texts = "
             "hand-written list + printed trees with whitespace / character mutations.  non-trivial = a well-formed expression "
             "(built or parsed) with a flag, a fixed name, nesting or >= 2 elements whose printed form was parsed again")
@@ -569,14 +572,23 @@ class Prop(Check):
     ]
 
     # -- generation ---------------------------------------------------------
+    slice = 0
+
     def gen(self, rng, n, tier):
+        import os
+
+        self.slice = int(os.environ.get("VERIF_SEED", "0") or 0) % 3
         cases = []
         nmax = self.ENUM_QUICK if tier == "quick" else self.ENUM_THOROUGH
         allflags = ("", "m", "p", "mp")
+        quick = tier == "quick"
+        flags_all = self.FLAGS_ALL_QUICK if quick else self.FLAGS_ALL_THOROUGH
         for k in range(1, nmax + 1):
             for i, s in enumerate(enum_seqs(k)):
-                # all four flag combinations up to FLAGS_ALL elements, above that one flag per tree in rotation
-                for fl in (allflags if k <= (self.FLAGS_ALL_QUICK if tier == "quick" else self.FLAGS_ALL_THOROUGH) else (allflags[i % 4],)):
+                if quick and k > flags_all and i % 3 != self.slice:
+                    continue  # quick: the largest size is covered in three slices (slice = seed mod 3)
+                # all four flag combinations on the small trees, one flag per tree in rotation on the larger ones
+                for fl in (allflags if k <= flags_all else (allflags[(i // 3) % 4],)):
                     cases.append({"kind": "tree", "tree": {"flags": fl, "seq": s}, "origin": "enum"})
         self.n_enum = len(cases)
         g = TreeGen(rng.fork("trees"))
@@ -778,6 +790,8 @@ class Prop(Check):
         """C12-KF1: a fixed name ending with a backslash has no context-free notation.  A failing
         input belongs to it iff such a name occurs and the same tree with the trailing backslashes
         removed satisfies the property."""
+        if not str(failure).startswith("the printed form "):
+            return None  # only round-trip failures of the implementation, never a model disagreement
         tree = self.subject(case, obs)
         if tree is None or not wf_tree(tree):
             return None
@@ -880,5 +894,5 @@ class Prop(Check):
             "max_size": maxsize,
             "flags_seen": flags,
             "subjects_with_fixed_name": fixed,
-            "exhaustive": f"all {getattr(self, 'n_enum', 0)} trees of the enumerated sub-space (see rule)",
+            "exhaustive": f"{getattr(self, 'n_enum', 0)} cases of the enumerated sub-space (see rule)",
         }
